@@ -173,6 +173,7 @@ def evaluate(sub, case, rec=None, record=True):
     defaults.NPINT = defaults.npint_flag_for(case)
     defaults.POSITIONAL = defaults.positional_flag_for(case)
     defaults.SEQFORM = defaults.seqform_for(case)
+    defaults.STACKED = defaults.stacked_flag_for(case)
     try:
         sub.body(case, ctx)
     except Skip as s:
